@@ -91,6 +91,10 @@ type Case struct {
 	Threads [][]Op   `json:"threads,omitempty"`
 	Hist    []HEntry `json:"hist,omitempty"`
 	Order   []int    `json:"order,omitempty"`
+	// contention scenarios (kind "stress"): P producers x N BlockingAdd, C consumers
+	P int `json:"p,omitempty"`
+	N int `json:"n,omitempty"`
+	C int `json:"c,omitempty"`
 }
 
 func parseF(s string) float64 {
@@ -1084,6 +1088,31 @@ func genHist(r *kit.Rand, id int) Case {
 		}
 		return Op{Op: "Close"}
 	}
+	if r.Chance(1, 5) {
+		// producers with a LIVE context competing for one or two slots, one consumer taking
+		// everything: the stamped miniature of the contention stream (<= 12 ops)
+		if r.Bool() {
+			c.Cfg = Cfg{Kind: "quota", HL: r.Range(1, 2)}
+		} else {
+			c.Cfg = Cfg{Kind: "hard", Cap: 1}
+		}
+		p := r.Range(2, 5)
+		per := 1
+		if p <= 3 {
+			per = r.Range(1, 2)
+		}
+		c.Threads = make([][]Op, p+1)
+		for t := 0; t < p; t++ {
+			for j := 0; j < per; j++ {
+				next++
+				c.Threads[t] = append(c.Threads[t], Op{Op: "BlockingAdd", V: next, TO: 2000})
+			}
+		}
+		for j := 0; j < p*per; j++ {
+			c.Threads[p] = append(c.Threads[p], Op{Op: []string{"Wait", "Receive"}[r.Intn(2)], TO: 500})
+		}
+		return c
+	}
 	if r.Chance(1, 4) {
 		// contention shape: all goroutines hit the same boundary at once (k takers on 1-2 queued
 		// items, or k adders on a nearly full queue), released together, no widening of intervals
@@ -1165,6 +1194,8 @@ func execCase(run *kit.Run, c Case, verbose bool) {
 			runHist(&c)
 		}
 		checkHist(run, c, verbose)
+	case "stress":
+		runContention(run, c, verbose)
 	}
 }
 
@@ -1173,14 +1204,18 @@ func main() {
 	run.Header = "From Coq Require Import List ZArith PrimFloat.\nFrom FunV Require Import Model.QueueHeap Corr.C05_corr.\nImport ListNotations."
 	run.Footer = "Definition M := Eval vm_compute in mismatches cases.\nPrint M."
 	run.CaseType = "case"
-	run.Rule = "new: QueueOptions incl. malformed ones; seq: random op sequences (Add/BlockingAdd/Send/Remove/Wait/Receive/Len/DLen/Close, blocking ops with a cancelled context) over unlimited, hard-limit-tracker and quota (hard limit, soft quota, burst credit incl. fractional, sub-1, +Inf) configurations, followed by a drain; hist: 2-6 goroutines, <= 12 concurrent ops + optional prefix + sequential drain, stamped from one atomic counter. distinct = distinct (cfg, ops) resp. distinct recorded history; non-trivial = a successful take after a successful add (seq) / at least one pair of overlapping operations of different goroutines (hist)"
+	run.Rule = "new: QueueOptions incl. malformed ones; seq: random op sequences (Add/BlockingAdd/Send/Remove/Wait/Receive/Len/DLen/Close, blocking ops with a cancelled context) over unlimited, hard-limit-tracker and quota (hard limit, soft quota, burst credit incl. fractional, sub-1, +Inf) configurations, followed by a drain; hist: 2-6 goroutines, <= 12 concurrent ops + optional prefix + sequential drain, stamped from one atomic counter; stress: contention scenarios (HardLimit 1-2 / capacity 1-2 / soft quota 1 below the hard limit; 2-8 producers looping BlockingAdd with a live context, 1-2 consumers looping Remove/Wait; thousands of calls, direct oracle on every return). distinct = distinct (cfg, ops) resp. distinct recorded history; non-trivial = a successful take after a successful add (seq) / at least one pair of overlapping operations of different goroutines (hist)"
 
 	if run.Replay != "" {
 		var c Case
 		if err := kit.ReadReplayCase(run.Replay, &c); err != nil {
 			panic(err)
 		}
-		if c.Kind == "hist" && len(c.Hist) > 0 {
+		if c.Kind == "stress" {
+			for i := 0; i < 20 && run.NOracle == 0; i++ {
+				execCase(run, c, true)
+			}
+		} else if c.Kind == "hist" && len(c.Hist) > 0 {
 			fmt.Println("re-checking the recorded history (a concurrent schedule cannot be re-executed deterministically):")
 			checkHist(run, c, true)
 			// and try to reproduce it live
@@ -1256,6 +1291,15 @@ func main() {
 	for i := 0; i < nHist; i++ {
 		r := run.Rand.Fork()
 		c := genHist(r, id)
+		id++
+		execCase(run, c, false)
+	}
+
+	// contention scenarios: direct oracle on every return, a few thousand calls each
+	nStress := run.Pick(12, 80)
+	for i := 0; i < nStress; i++ {
+		r := run.Rand.Fork()
+		c := genContention(r, id, run.Pick(4000, 16000))
 		id++
 		execCase(run, c, false)
 	}
